@@ -131,10 +131,11 @@ func (g *vcgen) lin(v ssa.Value) string {
 	defer delete(g.busy, v)
 	switch x := v.(type) {
 	case *ssa.BinOp:
-		_, uns, _ := intInfo(x.Type())
+		_, uns, bits := intInfo(x.Type())
 		switch x.Op {
 		case token.ADD:
-			if isInt, _, _ := intInfo(x.Type()); isInt {
+			// narrow unsigned additions wrap at small values (uint8: 200 + 100 = 44): not linear over the integers
+			if isInt, _, _ := intInfo(x.Type()); isInt && !(uns && bits < 64) {
 				return "(" + g.lin(x.X) + " + " + g.lin(x.Y) + ")"
 			}
 		case token.SUB:
